@@ -24,7 +24,7 @@ REQUIRED_ORACLES = ["chain", "side-effects"]
 REQUIRED_COUNTERS = ["cases_by_feature:hole-in-range", "cases_by_feature:bounded-end-below-last", "replies_with_a_concurrent_new_message",
                      "requests_served_after_the_clock_was_set_back"]
 NSHARDS = 16
-KINDS = ["app", "appx", "appg", "decl", "hb", "tr", "rr", "lo", "hole"]
+KINDS = ["app", "appx", "appg", "appu", "decl", "hb", "tr", "rr", "lo", "hole"]
 APPX_TYPES = ["AE", "AS", "AB", "AZ", "8", "BZ", "j"]     # application types that share a first character with session types
 SESSION_TYPES = {"A", "0", "1", "2", "4", "5"}
 
@@ -77,6 +77,12 @@ async def run_case(acc, clock, slots, prior, req, state, cid, concur=None, step_
                     if i % 2:
                         mg[43] = "N"
                     await ep.send_msg(mg)
+                elif k == "appu":
+                    # an application message with a repeating group the protocol's group table does not list (News: NoLinesOfText):
+                    # it was sent, it is in the journal, it is retransmitted like any other
+                    mu = FIXMessage("B", {11: f"oku{i}", 148: "headline"})
+                    mu.set_group(33, [{58: "line one"}, {58: "line two"}])
+                    await ep.send_msg(mu)
                 elif k == "decl":
                     await ep.send_msg(FIXMessage("D", {11: f"decl{i}", 55: "X"}))
                 elif k == "hb":
@@ -201,6 +207,11 @@ async def run_case(acc, clock, slots, prior, req, state, cid, concur=None, step_
             feats.append("bounded-end-below-last")
         if not invalid and any(q not in before for q in range(begin, hi + 1)) and not any(fixwire.get(parsed_before[q], 35) == "4" for q in inrange):
             feats.append("hole-in-range")
+        # a journaled message carrying a repeating group that the protocol's group table does not list cannot be re-encoded by the
+        # replay (RepeatingTagError, swallowed): listed finding, keyed by exactly this mechanism
+        if any(fixwire.get(parsed_before[q], 33) is not None and fixwire.get(parsed_before[q], 35) == "B" for q in inrange) and \
+                any("RepeatingTagError" in x for x in w["swallowed"]):
+            feats.insert(0, "unlisted-group-in-range")
         feat = feats[0] if feats else "plain"
         if "possdup-copy-in-range" in feats and any("DuplicatedTagError" in x for x in w["swallowed"]):
             feat = "possdup-copy-in-range"
